@@ -19,12 +19,16 @@ for i in ids:
         pf = os.path.join(d, "patch.diff")
         if subprocess.run(["git", "-C", "/repo", "apply", pf]).returncode != 0:
             # /repo has moved on since the change was written (later repairs): merge it, and keep the refreshed patch
-            subprocess.run(["git", "-C", "/repo", "apply", "--3way", pf], check=True)
+            if subprocess.run(["git", "-C", "/repo", "apply", "--3way", pf]).returncode != 0:
+                subprocess.run(["git", "-C", "/repo", "reset", "-q", "--hard", "HEAD"], check=True)
+                print(f"{i:8s} {prop} PATCH DOES NOT APPLY TO THE CURRENT TREE", flush=True)
+                bad += 1
+                continue
             subprocess.run(["git", "-C", "/repo", "reset", "-q"], check=True)
             open(pf, "w").write(subprocess.run(["git", "-C", "/repo", "diff", "--", "src"], capture_output=True, text=True).stdout)
         p = subprocess.run([os.path.join(HERE, "check"), prop, "--tier", "quick"], capture_output=True, text=True, cwd=HERE, env=env)
     finally:
-        subprocess.run(["git", "-C", "/repo", "checkout", "--", "."], check=True)
+        subprocess.run(["git", "-C", "/repo", "reset", "-q", "--hard", "HEAD"], check=True)
     first = next((l for l in p.stdout.splitlines() if l.startswith("   - ")), "")[:300]
     vline = next((l for l in p.stdout.splitlines() if l.startswith("VIOLATION")), "")
     meta["official_path"] = {"check": prop, "rc": p.returncode, "violation_line": bool(vline), "first": first}
